@@ -218,6 +218,9 @@ class LogOracle:
             elif before is not None and cur is not None and before[6] is not None and "hard" not in c.get("flags", []) \
                     and cur[6] != before[6]:
                 fail = "undo did not restore the work tree"
+        # independent reading of the log (specification of C05: effective timeline / redo stack)
+        if fail is None and c["c"] in ("undo", "redo") and ex == 0 and st is not None and len(log) >= 2:
+            fail = self.check_against_log(real, snap, st, log, c)
         changing = c["c"] in ("new", "push", "pop", "goto", "float", "sink", "delete", "hide", "unhide", "rename",
                               "commit", "uncommit", "clean", "spill")
         nlog = len(log) - len(old) if (self.prev_log is not None and False) else None
@@ -319,6 +322,127 @@ class DirtyOracle:
         return None
 
 
+def cell_merge(b, o, t):
+    out = []
+    for x, y, z in zip(b, o, t):
+        if z == x:
+            out.append(y)
+        elif y == x:
+            out.append(z)
+        elif y == z:
+            out.append(y)
+        else:
+            return None
+    return out
+
+
+class ContentOracle:
+    """C07, content part, computed independently of the model: a patch re-created by a
+    reordering command carries exactly the cell-wise three-way merge of (old parent tree, new
+    parent tree, old patch tree); popping never creates or alters a commit."""
+
+    REORDER = ("push", "pop", "goto", "float", "sink", "delete", "hide", "unhide", "commit", "clean", "rename")
+
+    def __init__(self):
+        self.prev = None
+
+    def __call__(self, real, snap, graph, i, c, ex, stderr):
+        st = stack_json(real, snap)
+        cur = {k: v["oid"] for k, v in st["patches"].items()} if st else {}
+        prev, self.prev = self.prev, cur
+        if prev is None or st is None or c["c"] not in self.REORDER or ex not in (0, 3):
+            return None
+        for n, oid in cur.items():
+            old = prev.get(n)
+            if old is None or old == oid:
+                continue
+            oi, ni = real.commit_info(old), real.commit_info(oid)
+            if not oi["parents"] or not ni["parents"]:
+                continue
+            op, np_ = real.commit_info(oi["parents"][0]), real.commit_info(ni["parents"][0])
+            if None in (oi["tree"], ni["tree"], op["tree"], np_["tree"]):
+                continue
+            if c["c"] == "pop" and not c.get("ranges"):
+                return "popping re-created the commit of patch %r" % n
+            exp = cell_merge(op["tree"], np_["tree"], oi["tree"])
+            if exp is None:
+                if ex == 0 and n in st["applied"]:
+                    return "patch %r was pushed without a conflict although its change overlaps what lies beneath" % n
+                continue
+            if "set-tree" in c.get("flags", []):
+                continue
+            if ni["tree"] != exp:
+                return "pushed patch %r does not carry the three-way merge of (old parent, new parent, patch): %r != %r" % (
+                    n, ni["tree"], exp)
+            if ni["meta"] != oi["meta"]:
+                return "re-created patch %r changed its message" % n
+        return None
+
+
+def _entries(real, log):
+    """[(kind, n, state oid)] newest first, from the messages of the real state commits"""
+    out = []
+    for so in log:
+        msg = real.commit_info(so)["msg"]
+        f = msg.split()
+        kind, n = "op", 0
+        if len(f) == 2 and f[0] in ("undo", "redo"):
+            try:
+                kind, n = f[0], int(f[1])
+            except ValueError:
+                pass
+        out.append((kind, n, so))
+    return out
+
+
+def _eff(entries):
+    if not entries:
+        return []
+    kind, n, so = entries[0]
+    rest = _eff(entries[1:])
+    if kind == "undo":
+        return rest[n:]
+    return [so] + rest
+
+
+def _redo_stack(entries):
+    if not entries:
+        return []
+    kind, n, so = entries[0]
+    if kind == "op":
+        return []
+    if kind == "undo":
+        return ([entries[1][2]] + _redo_stack(entries[1:])) if len(entries) > 1 else []
+    return _redo_stack(entries[1:])[n:]
+
+
+def _check_against_log(self, real, snap, st, log, c):
+    before = _entries(real, log[1:])          # the log the command saw (incl. an external-mods entry)
+    n = c.get("n", 1)
+    if c["c"] == "undo":
+        tl = _eff(before)
+        target = tl[n] if n < len(tl) else None
+    else:
+        rs = _redo_stack(before)
+        target = rs[n - 1] if 0 < n <= len(rs) else None
+    if target is None:
+        return "%s -n %d succeeded although the log has no such state" % (c["c"], n)
+    ts = real.commit_info(target)["state"]
+    if ts is None:
+        return None
+    same = (st["applied"] == ts["applied"] and st["unapplied"] == ts["unapplied"] and st["hidden"] == ts["hidden"]
+            and {k: v["oid"] for k, v in st["patches"].items()} == {k: v["oid"] for k, v in ts["patches"].items()}
+            and st["head"] == ts["head"])
+    if not same:
+        return "%s -n %d did not restore the state the log designates (entry %s)" % (c["c"], n, target[:8])
+    if snap["branch"] != ts["head"]:
+        return "%s -n %d: the branch head is not the head recorded in the restored state" % (c["c"], n)
+    return None
+
+
+LogOracle.check_against_log = _check_against_log
+
+
 def oracle_c09(real, snap, graph, i, c, ex, stderr):
     """after a conflict halt the conflicting patch is applied on top as an empty commit and
     the index has unmerged entries"""
@@ -399,6 +523,8 @@ def build_oracles(names):
             out.append(PrevOracle())
         elif n == "dirty":
             out.append(DirtyOracle())
+        elif n == "content":
+            out.append(ContentOracle())
     return out
 
 
@@ -412,8 +538,27 @@ def corpus_files():
         if os.path.isdir(d) else []
 
 
+def run_extras(ctx, stg, oracle_names):
+    """scripted scenarios for commands outside the model, judged by the direct oracles"""
+    from . import extras
+    known = load_known(ctx.prop)
+    n, failures = extras.run_scenarios(stg, list(oracle_names), tag=ctx.prop.lower() + "x")
+    for f in failures[:4]:
+        if f["why"].startswith("exit status") and ctx.prop != "C20":
+            continue
+        k = match_known(known, {"cmd": {"c": f["steps"][-1][1] if len(f["steps"][-1]) > 1 else ""}, "why": f["why"],
+                                "stderr": f.get("stderr", "")})
+        if k:
+            ctx.known.append("%s: %s" % (k["id"], k["what"]))
+            continue
+        common.violation(ctx, {"obligation": "direct-oracle:%s:outside-model" % ctx.prop, **f}, found_input=True,
+                         hint="extra-")
+    ctx.coverage["outside_model_commands"] = n
+    ctx.coverage["evaluations"] = ctx.coverage.get("evaluations", 0) + n
+
+
 def run_property(ctx, profiles, oracle_names, n_quick, n_thorough, nsteps=30, prop_file=None,
-                 own_oracle="", extra_trusted=()):
+                 own_oracle="", extra_trusted=(), with_extras=False):
     """profiles: list of (profile name, weight).  Returns nothing; fills ctx."""
     stg = common.build_stg()
     broken = gate.coq_gate(ctx, prop_file)
@@ -526,6 +671,8 @@ def run_property(ctx, profiles, oracle_names, n_quick, n_thorough, nsteps=30, pr
         "direct_oracle_failures": len(failures),
         "direct_oracles": oracle_names,
     })
+    if with_extras:
+        run_extras(ctx, stg, [n for n in oracle_names])
     ctx.assumptions += [
         "scenario corpus: 3 files x 3 regions + 3 one-cell files; blobs rendered as region lines separated by 5 "
         "constant padding lines so that git merges region-wise",
